@@ -72,12 +72,12 @@ def keep(d, sid):
     (dst / "meta.json").write_text(json.dumps(meta, indent=1))
     print("kept", dst)
 
-def detect(sid, tier="quick", only=None):
+def detect(sid, tier="quick", only=None, prop=None):
     """Runs the check against a scratch worktree of /repo HEAD with the seeded patch applied
     (VERIF_REPO), so /repo itself stays untouched while other checks are running."""
     dst = Path("/verif/seeded") / sid
     meta = json.loads((dst / "meta.json").read_text())
-    pid = meta["property"]
+    pid = prop or meta["property"]
     wt = Path(f"/tmp/seedwt-{sid}")
     sh(f"git -C /repo worktree remove --force {wt}")
     rc, out = sh(f"git -C /repo worktree add -q --detach {wt} HEAD")
@@ -102,7 +102,7 @@ def detect(sid, tier="quick", only=None):
         print(out[-1500:])
     print(f"== {sid}: check exit {rc} ({verdict}) in {time.time()-t0:.0f}s")
     det = meta.setdefault("detection", {})
-    det[f"{tier}{'/'+only if only else ''}"] = {"exit": rc, "lines": lines[-8:], "wall_s": round(time.time()-t0)}
+    det[f"{(prop + ':') if prop else ''}{tier}{'/'+only if only else ''}"] = {"exit": rc, "lines": lines[-8:], "wall_s": round(time.time()-t0)}
     (dst / "meta.json").write_text(json.dumps(meta, indent=1))
     return 0
 
@@ -111,7 +111,9 @@ if __name__ == "__main__":
     if a[0] == "confirm": sys.exit(confirm(a[1]))
     if a[0] == "keep": keep(a[1], a[2])
     if a[0] == "detect":
-        only = None
+        only = None; prop = None
         if "--only" in a:
             i = a.index("--only"); only = a[i+1]; a = a[:i] + a[i+2:]
-        sys.exit(detect(a[1], a[2] if len(a) > 2 else "quick", only))
+        if "--prop" in a:
+            i = a.index("--prop"); prop = a[i+1]; a = a[:i] + a[i+2:]
+        sys.exit(detect(a[1], a[2] if len(a) > 2 else "quick", only, prop))
